@@ -565,7 +565,7 @@ def _z3_once(assumptions, goal, ms):
         s.add(a)
     if goal is not False:
         s.add(z3.Not(to_bool(goal)))
-    return s, s.check()
+    return s, check_deadline(s, ms / 1000.0 + 3.0)
 
 
 def smt_check(assumptions, goal, timeout_ms=None):
@@ -598,11 +598,24 @@ def smt_check(assumptions, goal, timeout_ms=None):
         except Exception:
             pass
     if full > QUICK_MS:
-        s, r = _z3_once(assumptions, goal, full)
-        if r == z3.unsat:
+        # second z3 attempt with the full budget, under a hard wall-clock bound (forked child)
+        s2 = z3.Solver()
+        s2.set('timeout', full)
+        from .state import cone_of_influence
+        for a in (cone_of_influence(assumptions, goal) if goal is not False and is_sym(goal) else assumptions):
+            s2.add(a)
+        if goal is not False:
+            s2.add(z3.Not(to_bool(goal)))
+        t1 = time.time()
+        fr = forked_check(s2, full / 1000.0 + 2.0)
+        if fr == 'unsat':
             return 'proved', None, time.time() - t0, 'z3'
-        if r == z3.sat:
-            return 'refuted', s.model(), time.time() - t0, 'z3'
+        if fr == 'sat':
+            # reproduce in this process to obtain the model (the child needed time.time()-t1 seconds)
+            r = check_deadline(s2, 2.0 * (time.time() - t1) + 5.0)
+            if r == z3.sat:
+                return 'refuted', s2.model(), time.time() - t0, 'z3'
+        s = s2
     # second opinion: cvc5 through SMT-LIB text
     from .backends import cvc5_check
     r2 = cvc5_check(s, full)
